@@ -1,8 +1,9 @@
 """C01: table-style TLC wrappers with *parallel* evaluation.
 
 vf.table enumerates cases / judges observations as TLC initial states, which TLC computes and checks on a single
-thread.  Semantics!Expected / Conforms interpret whole programs, so here the work items are successors of a few
-partition states instead (TLC expands different states on different workers).  Same contract as vf.table:
+thread.  Here the enumeration computes each case's history once (state variable h) and hands it to every sanity
+invariant, and the judged observations are successors of a few block states (TLC expands different states on
+different workers).  Same contract as vf.table:
 the spec enumerates `Cases`, checks the named sanity invariants on every case, emits `Expected(c)`; and judges
 recorded observations with `Conforms(case, obs)`.
 """
@@ -15,64 +16,56 @@ from vf.tlc import MachineryError, render_cfg, require_ok, run_tlc, sany
 
 ENUM = """---- MODULE {m}_PEnum ----
 EXTENDS {m}, Json
-VARIABLES part, c, h              \\* h = the history the interpreter assigns to case c (computed once per case)
-Nil == [calls |-> <<>>]
-Keys == {{PartKey(x) : x \\in Cases}}
-PInit == part \\in Keys /\\ c = Nil /\\ h = <<>>
-PNext == /\\ c = Nil
-         /\\ c' \\in {{x \\in Cases : PartKey(x) = part}}
-         /\\ h' = Expected(c')
-         /\\ UNCHANGED part
-Emit == c = Nil \\/ PrintT("@@J@@" \\o ToJson([case |-> c, exp |-> h]))
-SlicesDef == {slices}
+VARIABLES c, h              \\* h = the history the interpreter assigns to case c (computed once per case)
+PInit == c \\in Cases /\\ h = Expected(c)
+PNext == UNCHANGED <<c, h>>
+Emit == PrintT("@@J@@" \\o ToJson([case |-> c, exp |-> h]))
 {invs}
 ====
 """
 
 OBS = """---- MODULE {m}_PObs ----
 EXTENDS {m}, Json, IOUtils
+\\* one record per behaviour: [case |-> c, obs |-> <<o1, o2, ...>>] (the distinct histories recorded for it)
 Obs == JsonDeserialize(IOEnv.OBS_FILE)
 Blocks == {blocks}
-SlicesDef == {{<<"multi", 1, 1, 1>>}}      \\* Conforms does not depend on the enumerated slice
 VARIABLES blk, i
 BInit == blk \\in 1..Blocks /\\ i = 0
 BNext == /\\ i = 0
          /\\ i' \\in {{k \\in 1..Len(Obs) : (k % Blocks) + 1 = blk}}
          /\\ UNCHANGED blk
-Judge == i = 0 \\/ LET bad == Conforms(Obs[i].case, Obs[i].obs) IN
+Judge == i = 0 \\/ LET rec == Obs[i]
+                       bad == [k \\in 1..Len(rec.obs) |-> Conforms(rec.case, rec.obs[k])] IN
                    PrintT("@@J@@" \\o ToJson([i |-> i, bad |-> bad]))
 ====
 """
 
 
-def tla_slices(slices) -> str:
-    return "{" + ", ".join(f'<<"{a}", {c}, {s}, {t}>>' for a, c, s, t in sorted(slices)) + "}"
-
-
-def enumerate_cases(ctx: Ctx, wd, module: str, *, slices, invariants=(), name: str, timeout: int = 900,
+def enumerate_cases(ctx: Ctx, wd, module: str, *, constants: dict, invariants=(), name: str, timeout: int = 900,
                     emit: bool = True) -> list[dict]:
     invs = "\n".join(f"Inv_{x} == {x}(c, h)" for x in invariants)
-    (wd / f"{module}_PEnum.tla").write_text(ENUM.format(m=module, invs=invs, slices=tla_slices(slices)))
-    cfg = render_cfg(init_next=("PInit", "PNext"), overrides={"Slices": "SlicesDef"},
+    (wd / f"{module}_PEnum.tla").write_text(ENUM.format(m=module, invs=invs))
+    cfg = render_cfg(init_next=("PInit", "PNext"), constants=constants,
                      invariants=[f"Inv_{x}" for x in invariants] + (["Emit"] if emit else []))
-    r = run_tlc(wd, f"{module}_PEnum", cfg, timeout=timeout, cfg_name=f"{module}_{name}.cfg", workers=12)
+    r = run_tlc(wd, f"{module}_PEnum", cfg, timeout=timeout, cfg_name=f"{module}_{name}.cfg", workers=4)
     ctx.add_tlc(f"{module}:enumerate[{name}]", r)
     require_ok(r, f"{module} case enumeration / interpreter sanity invariants {list(invariants)} ({name})")
     cases = [j for j in r.json_lines if isinstance(j, dict) and "case" in j]
     return cases
 
 
-def judge(ctx: Ctx, wd, module: str, observations: list[dict], *, timeout: int = 1200,
-          chunk: int = 6000, blocks: int = 24, name: str = "judge") -> list[tuple[int, list[str]]]:
-    """TLC evaluates Conforms(case, obs) for every recorded observation.  Returns [(index, clause names)] for the
-    observations with a non-empty verdict."""
+def judge(ctx: Ctx, wd, module: str, records: list[dict], *, timeout: int = 1200,
+          chunk: int = 4000, blocks: int = 24, name: str = "judge") -> dict[tuple[int, int], list[str]]:
+    """records = [{"case": c, "obs": [o1, o2, ...]}]: TLC evaluates Conforms(c, o) for every recorded history.
+    Returns {(record index, obs index): clause names} for the histories with a non-empty verdict."""
     (wd / f"{module}_PObs.tla").write_text(OBS.format(m=module, blocks=blocks))
-    bad: list[tuple[int, list[str]]] = []
-    for off in range(0, len(observations), chunk):
-        part = observations[off:off + chunk]
+    bad: dict[tuple[int, int], list[str]] = {}
+    for off in range(0, len(records), chunk):
+        part = records[off:off + chunk]
         f = wd / f"obs_{module}_{off}.json"
         f.write_text(json.dumps(part))
-        cfg = render_cfg(init_next=("BInit", "BNext"), overrides={"Slices": "SlicesDef"}, invariants=["Judge"])
+        cfg = render_cfg(init_next=("BInit", "BNext"), invariants=["Judge"],
+                         constants={"RichSteps": 0, "SmallSteps": 0, "MultiCalls": 1, "MaxTicks": 1})   # Conforms does not use them
         r = run_tlc(wd, f"{module}_PObs", cfg, timeout=timeout, env={"OBS_FILE": str(f)}, cfg_name=f"{module}_pobs.cfg",
                     workers=12)
         ctx.add_tlc(f"{module}:{name}[{off}:{off + len(part)}]", r)
@@ -80,10 +73,15 @@ def judge(ctx: Ctx, wd, module: str, observations: list[dict], *, timeout: int =
         seen = set()
         for j in r.json_lines:
             seen.add(j["i"])
-            if j["bad"]:
-                bad.append((off + j["i"] - 1, sorted(j["bad"])))
+            verdicts = j["bad"]
+            if len(verdicts) != len(part[j["i"] - 1]["obs"]):
+                raise MachineryError(f"{module}: record {j['i']} judged {len(verdicts)} of {len(part[j['i'] - 1]['obs'])} histories")
+            for k, v in enumerate(verdicts):
+                if v:
+                    bad[(off + j["i"] - 1, k)] = sorted(v)
+                else:
+                    ctx.traces_validated += 1
         if len(seen) != len(part):
-            raise MachineryError(f"{module}: judged {len(seen)} of {len(part)} observations")
-        ctx.traces_validated += len(part) - len([1 for j in r.json_lines if j["bad"]])
+            raise MachineryError(f"{module}: judged {len(seen)} of {len(part)} records")
         f.unlink()
     return bad
